@@ -392,7 +392,22 @@ func runHarness(pkgDir, harness string, loopBound, nval int, seed int64, maxPath
 						}
 						return
 					}
-					panic(r)
+					// an engine error (an operation the interpreter cannot perform): this path is inconclusive, the others are
+					// still explored. The path's inputs are kept as a probe: replayed natively, they count only if the native
+					// run fails (see Engine.probe).
+					msg := fmt.Sprint(r)
+					if res.Error == "" {
+						res.Error = msg
+						if os.Getenv("GOSYM_STACK") != "" {
+							res.Error += "\n" + string(debug.Stack())
+						}
+					}
+					res.Ends["engine-error"]++
+					func() {
+						defer func() { _ = recover() }()
+						e.probe("engine error on this path (" + firstLine(msg) + ")")
+					}()
+					return
 				}
 			}()
 			allowedInit = map[string]bool{modPath: true, hp.Pkg.Path(): true}
